@@ -12,6 +12,7 @@ import (
 	"strings"
 	"time"
 
+	"github.com/boz/kcache"
 	"github.com/boz/kcache/filter"
 	metav1 "k8s.io/apimachinery/pkg/apis/meta/v1"
 
@@ -26,7 +27,15 @@ type cfg struct {
 	content  int   // 0..8: a in {absent,l=0,l=1} x b in {absent,l=0,l=1}
 	seq      []int // filters: seq[0] initial, then Refilter(seq[1]), Refilter(seq[2])
 	b2b      bool  // the Refilter calls after the first are issued back to back, one barrier at the end
+	grow     bool  // content has no b: b{l=1}@0 is created in the parent between Refilter #1 and Refilter #2
+	stateful bool  // one user filter value (a pointer, no Equals) is passed to every Refilter; its meaning changes in between
 }
+
+// statefulFilter is a user filter without Equals, held by pointer, whose accepted set the owner changes before
+// passing the same value to Refilter again: nothing may conclude "same filter" from its identity.
+type statefulFilter struct{ as int }
+
+func (f *statefulFilter) Accept(o metav1.Object) bool { return hx.RefAccept(f.as, o) }
 
 func objects(content int) []metav1.Object {
 	var out []metav1.Object
@@ -54,10 +63,12 @@ type step struct {
 }
 
 type inst struct {
-	c     cfg
-	steps []step
-	done  bool
-	ready bool
+	growEvents []string
+	growList   string
+	c          cfg
+	steps      []step
+	done       bool
+	ready      bool
 }
 
 func (in *inst) run() {
@@ -111,8 +122,14 @@ func (in *inst) run() {
 		in.done = true
 		return
 	}
-	for _, f := range in.c.seq[1:] {
-		if err := n.Refilter(hx.MkFilter(f)); err != nil {
+	sf := &statefulFilter{}
+	for i, f := range in.c.seq[1:] {
+		var ff filter.Filter = hx.MkFilter(f)
+		if in.c.stateful {
+			sf.as = f
+			ff = sf
+		}
+		if err := n.Refilter(ff); err != nil {
 			in.steps = append(in.steps, step{err: err.Error()})
 			return
 		}
@@ -120,8 +137,32 @@ func (in *inst) run() {
 		st.events = append([]string{}, n.Received[seen:]...)
 		seen = len(n.Received)
 		in.steps = append(in.steps, st)
+		if in.c.grow && i == 0 {
+			// the parent changes between the two calls (its event is delivered before the next Refilter)
+			root.Publish(kcache.NewEvent(kcache.EventTypeCreate, grown()))
+			st := barrier()
+			in.growEvents = append([]string{}, n.Received[seen:]...)
+			in.growList = st.list
+			seen = len(n.Received)
+		}
 	}
 	in.done = true
+}
+
+func grown() metav1.Object { return hx.Pod("ns", "b", "0", "l=1") }
+
+func viewG(content, f int, withGrown bool) []metav1.Object {
+	objs := objects(content)
+	if withGrown {
+		objs = append(objs, grown())
+	}
+	var out []metav1.Object
+	for _, o := range objs {
+		if hx.RefAccept(f, o) {
+			out = append(out, o)
+		}
+	}
+	return out
 }
 
 func view(content, f int) []metav1.Object {
@@ -158,8 +199,21 @@ func (in *inst) check(r *vs.Result) []string {
 		}
 		return msgs
 	}
+	if c.grow {
+		// after Refilter #1 the parent gained b: the node shows it iff its filter accepts it, announced by one Create
+		wantL := hx.ListString(viewG(c.content, c.seq[1], true))
+		var wantE []string
+		if hx.RefAccept(c.seq[1], grown()) {
+			wantE = []string{"create:" + hx.ObjString(grown())}
+		}
+		if in.growList != wantL || strings.Join(in.growEvents, " ") != strings.Join(wantE, " ") {
+			msgs = append(msgs, fmt.Sprintf("parent event after a refilter not filtered by the new filter | %s: after the parent created %s the node holds %s (events %v), expected %s (events %v)", desc, hx.ObjString(grown()), in.growList, in.growEvents, wantL, wantE))
+		}
+	}
 	for i, st := range in.steps {
 		f := c.seq[i]
+		g := c.grow && i >= 2
+		view := func(content, f int) []metav1.Object { return viewG(content, f, g) }
 		want := hx.ListString(view(c.content, f))
 		if st.list != want {
 			msgs = append(msgs, fmt.Sprintf("cache after refilter wrong | %s: after step %d (filter %s) the cache holds %s, expected %s", desc, i, hx.FilterNames[f], st.list, want))
@@ -218,7 +272,7 @@ func Property() runner.Property {
 	return runner.Property{
 		ID:          "C07",
 		Level:       "model_checking",
-		Rule:        "all 9 parent contents over 2 keys x {absent, l=0, l=1} x all ordered pairs (quick) and triples (thorough) of the filter family {Null, All, l=1, l=0, name=a, FN(l==1), And(l=1,name=a), And(l=1,name=b), NSName(a,b), NSName(a, ns/*)} (equal, overlapping, widening by a full id / by a wildcard id, disjoint, accept-all, accept-none, rebuilt-equal, non-comparable); a ready SubscribeWithFilter node (and, on two contents, a SubscribeForFilter node made ready by its first Refilter) over an idle parent; one Refilter between two quiescence barriers; every interleaving inside each call (S1); plus triples issued back to back (one barrier at the end: last filter's view, events fold into it); oracle: exactly one Delete per cached object the new filter rejects, one Create per parent object newly accepted, nothing else; equal filter: no event, cache unchanged; A->B->A restores A's view",
+		Rule:        "all 9 parent contents over 2 keys x {absent, l=0, l=1} x all ordered pairs (quick) and triples (thorough) of the filter family {Null, All, l=1, l=0, name=a, FN(l==1), And(l=1,name=a), And(l=1,name=b), NSName(a,b), NSName(a, ns/*)} (equal, overlapping, widening by a full id / by a wildcard id, disjoint, accept-all, accept-none, rebuilt-equal, non-comparable); a ready SubscribeWithFilter node (and, on two contents, a SubscribeForFilter node made ready by its first Refilter) over an idle parent; one Refilter between two quiescence barriers; every interleaving inside each call (S1); plus triples with a parent Create between the two calls, triples passing one stateful pointer filter (no Equals) whose meaning changes between the calls, and triples issued back to back (one barrier at the end: last filter's view, events fold into it); oracle: exactly one Delete per cached object the new filter rejects, one Create per parent object newly accepted, nothing else; equal filter: no event, cache unchanged; A->B->A restores A's view",
 		Assumptions: []string{"premise of the property: subscription ready and no parent events in flight (barrier = quiescence, decided by the scheduler, not by sleeping)"},
 		Scenarios: func(tier string) []runner.Sc {
 			var out []runner.Sc
@@ -255,6 +309,35 @@ func Property() runner.Property {
 									return explore.Instance{Run: in.run, Check: in.check, Outcome: in.outcome}
 								},
 							}})
+						}
+					}
+				}
+			}
+			// the parent gains an object between Refilter #1 and Refilter #2 (contents without b), and: one stateful user
+			// filter value reused for every call
+			basic := []int{0, 1, 2, 3, 4}
+			if tier == "thorough" {
+				basic = []int{0, 1, 2, 3, 4, 6, 8, 9}
+			}
+			for _, variant := range []string{"grow", "stateful"} {
+				contents := []int{1, 2}
+				if variant == "stateful" {
+					contents = []int{5, 8}
+				}
+				for _, content := range contents {
+					for _, a := range basic {
+						for _, b := range basic {
+							for _, c3 := range basic {
+								c := cfg{content: content, seq: []int{a, b, c3}, grow: variant == "grow", stateful: variant == "stateful"}
+								out = append(out, runner.Sc{Scenario: explore.Scenario{
+									Name: fmt.Sprintf("c07/fsub-%s/content%d/%s", variant, content, strings.Join(names(c.seq), ">")), Mode: "S1",
+									Cfg: vs.Config{Timers: vs.TimersIdle, MaxSteps: 100000},
+									New: func() explore.Instance {
+										in := &inst{c: c}
+										return explore.Instance{Run: in.run, Check: in.check, Outcome: in.outcome}
+									},
+								}})
+							}
 						}
 					}
 				}
